@@ -181,9 +181,9 @@ theorem rjustZero_filter (l : List Char) (n : Nat) (h : l.contains '.' = false) 
     simpa using this
 
 /-- the digits are kept (with leading zeros), only a decimal point is inserted … -/
-theorem parenStd_digits (nominal std : String) (h : std.toList.contains '.' = false) :
-    (parenStd nominal std).toList.filter (· != '.') = rjustZero std.toList (decimalsOf nominal + 1) := by
-  unfold parenStd
+theorem parenMant_digits (nominal std : String) (h : std.toList.contains '.' = false) :
+    (parenMant nominal std).toList.filter (· != '.') = rjustZero std.toList (decimalsOf nominal + 1) := by
+  unfold parenMant
   simp only [h, Bool.false_eq_true, if_false]
   split
   · rw [String.toList_ofList]; exact rjustZero_filter _ _ h
@@ -195,13 +195,13 @@ theorem parenStd_digits (nominal std : String) (h : std.toList.contains '.' = fa
     exact this
 
 /-- … in front of exactly as many digits as the nominal value has decimals -/
-theorem parenStd_point (nominal std : String) (h : std.toList.contains '.' = false) (hd : decimalsOf nominal ≠ 0) :
-    ∃ ip fp, (parenStd nominal std).toList = ip ++ ['.'] ++ fp ∧ fp.length = decimalsOf nominal ∧ ip ≠ [] ∧
+theorem parenMant_point (nominal std : String) (h : std.toList.contains '.' = false) (hd : decimalsOf nominal ≠ 0) :
+    ∃ ip fp, (parenMant nominal std).toList = ip ++ ['.'] ++ fp ∧ fp.length = decimalsOf nominal ∧ ip ≠ [] ∧
       ip ++ fp = rjustZero std.toList (decimalsOf nominal + 1) := by
   have hl := rjustZero_length_ge std.toList (decimalsOf nominal + 1)
   refine ⟨(rjustZero std.toList (decimalsOf nominal + 1)).take ((rjustZero std.toList (decimalsOf nominal + 1)).length - decimalsOf nominal),
     (rjustZero std.toList (decimalsOf nominal + 1)).drop ((rjustZero std.toList (decimalsOf nominal + 1)).length - decimalsOf nominal), ?_, ?_, ?_, ?_⟩
-  · unfold parenStd
+  · unfold parenMant
     simp only [h, Bool.false_eq_true, if_false, if_neg hd, String.toList_ofList]
   · rw [List.length_drop]; omega
   · intro h0
@@ -210,7 +210,7 @@ theorem parenStd_point (nominal std : String) (h : std.toList.contains '.' = fal
     simp at this; omega
   · exact List.take_append_drop _ _
 
-theorem parenStd_explicit (nominal std : String) (h : std.toList.contains '.' = true) : parenStd nominal std = std := by
-  unfold parenStd; simp only [h, if_true]
+theorem parenMant_explicit (nominal std : String) (h : std.toList.contains '.' = true) : parenMant nominal std = std := by
+  unfold parenMant; simp only [h, if_true]
 
 end Pint.Meas
